@@ -23,7 +23,34 @@ pub mod c18;
 pub mod c19;
 pub mod e2e_paths;
 
+/// Checks whose whole exploration is repeated under the second ambient configuration (see `env::set_ambient_b`).
+const TWICE: [&str; 14] = ["C01", "C02", "C03", "C04", "C05", "C06", "C09", "C10", "C11", "C12", "C13", "C14", "C16", "C19"];
+
 pub fn run(ctx: &Ctx) -> Option<Report> {
+    let mut r = run_once(ctx)?;
+    if TWICE.contains(&ctx.id.as_str()) {
+        crate::env::set_ambient_b(true);
+        let r2 = run_once(ctx);
+        crate::env::set_ambient_b(false);
+        crate::env::set_log_mode(crate::env::LOG_OFF);
+        if let Some(r2) = r2 {
+            let mut s2 = r2.stats;
+            for v in s2.violations.iter_mut() {
+                v.what = format!("[ambient B: Trace logger formatting every record, strict late provider] {}", v.what);
+                if v.case.is_object() && v.case.get("ambient").is_none() {
+                    v.case["ambient"] = serde_json::json!("B");
+                }
+            }
+            let st = std::mem::replace(&mut r.stats, crate::core::Stats::new());
+            r.stats = st.merge(s2);
+            r.rule.push_str(" — The whole exploration is carried out twice: (A) with no logger output and providers that answer at once; (B) with a logger at Trace level that formats every record and, where the harness's standard provider is used, a strict provider (panics when called without readiness) that is not ready at once and answers late. Counts are the sums of both passes; distinct states / inputs are counted once.");
+            r.extra["ambient_passes"] = serde_json::json!(2);
+        }
+    }
+    Some(r)
+}
+
+fn run_once(ctx: &Ctx) -> Option<Report> {
     match ctx.id.as_str() {
         "C01" => Some(c01::run(ctx)),
         "C02" => Some(c02::run(ctx)),
@@ -49,6 +76,10 @@ pub fn run(ctx: &Ctx) -> Option<Report> {
 
 pub fn replay(id: &str, doc: &Value) -> i32 {
     let case = &doc["case"];
+    if case["ambient"] == "B" {
+        crate::env::set_ambient_b(true);
+        crate::env::set_log_mode(crate::env::LOG_OFF);
+    }
     match id {
         "C13" => c13::replay(case),
         "C14" => c14::replay(case),
